@@ -423,6 +423,9 @@ SEC_ARGS = {'.debug_info': 'debug_info_sec', '.debug_aranges': 'debug_aranges_se
 def make_dwarfinfo(sections, le, default_addr=8, machine_arch='x64', addresses=None):
     """DWARFInfo driven directly through DebugSectionDescriptors (the documented way)."""
     import io
+    from mcx import capture
+    if capture.ACTIVE:
+        raise capture.Captured('dwarf', (dict(sections), le, default_addr, machine_arch, dict(addresses or {})))
     from elftools.dwarf.dwarfinfo import DWARFInfo, DebugSectionDescriptor, DwarfConfig
     kw = {}
     for name, arg in SEC_ARGS.items():
